@@ -24,6 +24,16 @@ CHECKS = {
              'interpolation one ulp inside the end points); an index fault is the failing input.',
         note='Partial: this is index arithmetic, not the machine — numba code generation, np.empty sizes and LLVM are trusted; kernels outside the anchored files are only observed, not modelled.',
         design='§7 C11'),
+    'C18': dict(
+        technique='Lean 4 proofs over an executable model of _unpack_euler16 (integer split over Nat; real layer polymorphic, R for theorems, Float in the driver) with constants regenerated from the source + exhaustive differential run over all 65 340 codes',
+        text='split_bijective, triad_orthonormal (for every cap and ALL real xx, yy, az, hence every code: unit norms, mutual orthogonality, middle = minor x major), '
+             'major_injective_in_cap, caps_disjoint, minor_injective, decode_injective (distinct valid codes decode to distinct triads), norm_cap_edge. The constants '
+             'EULER_ABIN/TBIN/NORM are regenerated from the imported module on every run and the theorems are stated over them. The model is tied to the code by an '
+             'exhaustive run of the real _unpack_euler16 (bit-identical to the Float instance of the model on all 65 340 codes) and of the six eigenvector halo columns through the real loader; '
+             'an oracle checks orthonormality, handedness and pairwise distinctness on the implementation output. PARTIAL: the coverage clause (about 4 degrees) is proved only as '
+             'coverage_partial (cap tiling, parameter nets, cap-edge exactness); the measured covering radius (3.1 degrees) is reported as a test, not a theorem.',
+        note='Partial on the coverage clause. Theorems are over exact reals; float rounding is covered only by the exhaustive differential run. np.floor(np.sqrt(uint16)) is modelled by Nat.sqrt (checked on every code).',
+        design='§7 C18'),
 }
 
 NOT_YET = {}
